@@ -224,7 +224,10 @@ def matchAudio (p : Params) : List (Bytes × Nat) → List Pes → Except String
     if (srcs.take n).map (·.1) ≠ fs.map (·.payload) then throw "audio-frame-mismatch"
     -- the PES time stamp is the first frame's, re-derived from the sample count: at most 100 ms off
     match srcs.head? with
-    | some (_, t) => if pes.pts + 9000 < t % 2^33 ∨ t % 2^33 + 9000 < pes.pts then throw "audio-pts-drift"
+    | some (_, t) =>
+      -- distance on the 33-bit circle (the stamps wrap at 2^33)
+      let d := (pes.pts + 2^33 - t % 2^33) % 2^33
+      if 9000 < d ∧ d < 2^33 - 9000 then throw "audio-pts-drift"
     | none => pure ()
     if 1 ≤ p.aot ∧ p.aot ≤ 4 ∧ p.srIndex ≤ 12 ∧ p.chanCfg ≤ 7 ∧
         ¬ fs.all (fun f => f.profile = p.aot - 1 ∧ f.srIndex = p.srIndex ∧ f.chanCfg = p.chanCfg) then
